@@ -1,6 +1,6 @@
 CONSTANTS
-  MaxTicks = 8
-  MaxReq = 6
+  MaxTicks = 7
+  MaxReq = 5
   SecondCancel = TRUE
 SPECIFICATION Spec
 INVARIANT NoInstanceWhenRunEnds
